@@ -1,6 +1,7 @@
 import Evl.Lemmas.DispatchInv
 import Evl.Generated.DispatchFacts
 import Evl.Generated.LockSites
+import Evl.Generated.RegistryFacts
 /-!
 # C03 — Send always returns and leaves no goroutine behind, whatever the cancel point
 
@@ -356,5 +357,8 @@ the spawner that waits for them, around the traversal goroutines: a node that ca
 Broker (even a registering call) cannot wedge the Send it runs in. -/
 theorem send_holds_no_lock :
     ((Evl.Generated.brokerCallbacks.filter (fun c => c.kind == 0)).all (fun c => c.brokerLock == 0)) = true ∧
-    (Evl.Generated.brokerCallbacks.any (fun c => c.kind == 0)) = true ∧ Evl.Generated.lockLeaks = 0 := by decide
+    (Evl.Generated.brokerCallbacks.any (fun c => c.kind == 0)) = true ∧ Evl.Generated.lockLeaks = 0 ∧
+    -- ... nor a lock of the pipeline map: it is a sync.Map, whose Range holds nothing while the call-back
+    -- (the root node's Process) runs
+    Evl.Generated.graphMapPlain = true := by decide
 end Evl.C03
